@@ -122,6 +122,14 @@ func (s *objectStore) delete(o Object) {
 	}
 }
 
+// drop forgets all the objects of a given type
+func (s *objectStore) drop(of Object) {
+	s.Lock()
+	defer s.Unlock()
+
+	delete(s.m, stype(of))
+}
+
 func (s *objectStore) count(of Object) (n int) {
 	s.RLock()
 	defer s.RUnlock()
@@ -618,6 +626,26 @@ func (db *DB) Create(o Object, s Schema) (err error) {
 	switch {
 	case err == nil:
 		s.initialize(db, o)
+
+		// nothing is done if the new schema is refused
+		if err = es.isCompatibleWith(&s); err != nil {
+			return
+		}
+
+		// cache and asynchronous writes settings may change. Objects waiting
+		// for an asynchronous write are written now: they can only be read
+		// (from memory) and flushed while asynchronous writes are enabled
+		if es.asyncWritesEnabled() {
+			if err = db.flushAll(o); err != nil {
+				return
+			}
+		}
+
+		// objects stop being cached: those already cached are dropped, otherwise
+		// they would be served again, stale, if caching is re-enabled later
+		if es.mustCache() && !s.mustCache() {
+			db.cache.drop(o)
+		}
 
 		// the schema is existing and we don't need to build a new one
 		// update existing schema with changes
